@@ -12,7 +12,9 @@ cross-checked against what the library's getter returns at run time.
 import importlib
 import os
 
-from translate import REPO, reflect, emit, fail, coq_list, coq_codes
+import ast
+
+from translate import REPO, reflect, emit, fail, coq_list, coq_codes, find_func, lit
 
 
 def _load_file(path):
@@ -130,6 +132,24 @@ def generate():
     const("algo_entropy_bit_lens", "listN",
           _ints(reflect("bip_utils/algorand/mnemonic/algorand_entropy_generator.py",
                         "AlgorandEntropyGeneratorConst", "ENTROPY_BIT_LEN")))
+    # the literal bit widths of the ConvertBits calls: (8, w) in the encoder and the checksum, (w, 8) in the decoder
+    def convert_bits_args(rel, cls, func):
+        found = []
+        for node in ast.walk(find_func(rel, cls, func)):
+            if isinstance(node, ast.Call) and isinstance(node.func, ast.Attribute) and node.func.attr == "ConvertBits":
+                if len(node.args) != 3 or node.keywords:
+                    fail(f"{rel}: {cls}.{func}: unexpected ConvertBits call shape")
+                found.append((lit(node.args[1], rel, "from_bits"), lit(node.args[2], rel, "to_bits")))
+        if len(found) != 1:
+            fail(f"{rel}: {cls}.{func}: expected exactly one ConvertBits call, found {len(found)}")
+        return found[0]
+    d = "bip_utils/algorand/mnemonic/"
+    enc_a = convert_bits_args(d + "algorand_mnemonic_encoder.py", "AlgorandMnemonicEncoder", "Encode")
+    chk_a = convert_bits_args(d + "algorand_mnemonic_utils.py", "AlgorandMnemonicUtils", "ComputeChecksumWordIndex")
+    dec_a = convert_bits_args(d + "algorand_mnemonic_decoder.py", "AlgorandMnemonicDecoder", "Decode")
+    if not (enc_a == chk_a and enc_a[0] == 8 and dec_a == (enc_a[1], 8) and isinstance(enc_a[1], int)):
+        fail(f"{d}: ConvertBits widths encoder {enc_a}, checksum {chk_a}, decoder {dec_a} are not (8, w), (8, w), (w, 8)")
+    const("algo_word_bits", "N", enc_a[1])
     algo_langs = _enum_members("bip_utils.algorand.mnemonic.algorand_mnemonic", "AlgorandLanguages")
     if [m.name for m in algo_langs] != ["ENGLISH"] or algo_langs[0].value not in b39_by_member:
         fail(f"{al}: expected AlgorandLanguages = [ENGLISH -> Bip39Languages.ENGLISH]")
